@@ -161,6 +161,8 @@ fn run_case(c: &Timing, ci: usize, kfs: &[Kf], ki: usize) -> Out {
             Repeat::Infinite => u64::MAX,
         });
     }
+    // the other queries every timeline offers: Debug formatting (P has fields no keyframe sets)
+    let _ = guard!("debug-format", None, format!("{:?}", tl).len());
     // evaluation
     let (amin, amax) = kfs.iter().filter_map(|k| k.a).fold((0.0f32, 0.0f32), |(lo, hi), v| (lo.min(v), hi.max(v)));
     let init = P { a: 0.0, k: 0, d: 0.0, u: 1.0, z: 2.0 };
